@@ -35,7 +35,12 @@ pub fn ramp_text(shape: u8, n: usize, op: u8) -> (char, String) {
     let n = n.clamp(1, 64);
     let o = RAMP_OPS[op as usize % RAMP_OPS.len()];
     let rep = |s: &str| s.repeat(n);
-    match shape % 18 {
+    match shape % 22 {
+        // nested spreads / literals inside literals (update-path analysis of combined literals)
+        18 => ('t', format!("{{{{ {}a{} }}}}", rep("{..."), rep("}"))),
+        19 => ('t', format!("{{{{ {}a{} }}}}", rep("[..."), rep("]"))),
+        20 => ('t', format!("<v a=\"{{{{ {}a{} }}}}\"/>", rep("{x:[...{y:"), rep("}]}"))),
+        21 => ('t', format!("<block wx:for=\"{{{{ {}a{} }}}}\">{{{{item}}}}</block>", rep("[...(a ? "), rep(" : [])]"))),
         0 => ('t', format!("{}x{}", rep("<a>"), rep("</a>"))),
         1 => ('t', format!("{{{{ {}a{} }}}}", rep("("), rep(")"))),
         2 => ('t', format!("{{{{ {}a{} }}}}", rep("["), rep("]"))),
